@@ -10,7 +10,7 @@ package s3afero
 // mutating calls. The clauses below say which path of which file system each S3 operation
 // touches and what it answers; that afero implements the model is trusted.
 
-//@ pred mdb(db) = db != nil && db.bucketFs != nil && db.metaStore != nil && db.metaStore.fs != nil && db.metaStore.modTimeCalc != nil && db.lock == 0
+//@ pred mdb(db) = db != nil && db.bucketFs != nil && db.metaStore != nil && db.metaStore.fs != nil && db.bucketFs != db.metaStore.fs && db.metaStore.modTimeCalc != nil && db.lock == 0
 //@ immutable MultiBucketBackend baseFs bucketFs metaStore dirMode init MultiBucket
 //@ immutable metaStore fs modTimeCalc init newMetaStore
 
@@ -29,6 +29,7 @@ package s3afero
 
 // C10/C01: the metadata file of (bucket, object) is named by the bucket and by a digest of the
 // object key *as given* (before separators are replaced), so different keys get different files
+//@ pred metaobj(o) = strings.Replace(strings.Replace(o, "/", "_", -1), "\\", "_", -1) + "-" + hex.EncodeToString(hsum(1, o))
 //@ func (*metaStore).metaPath
 //@ props C10 C01 C09
 //@ ensures [C10]     bucket: ret0.bucket == bucket
@@ -49,9 +50,6 @@ package s3afero
 //@ ghost sm_bucket : Str
 //@ ghost sm_object : Str
 //@ ghost sm_meta : Int
-//@ ghost dmeta_count : Int
-//@ ghost dmeta_bucket : Str
-//@ ghost dmeta_object : Str
 
 //@ func (*metaStore).loadMeta
 //@ nobody
@@ -66,10 +64,13 @@ package s3afero
 //@ modifies sm_count, sm_bucket, sm_object, sm_meta, io_fails
 
 //@ func (*metaStore).deleteMeta
-//@ nobody
-//@ ensures            err:    imp(ret0 != nil, errcode(ret0) == "" && io_fails > old(io_fails)) && imp(ret0 == nil, io_fails == old(io_fails))
-//@ ensures            log:    dmeta_count == old(dmeta_count) + 1 && dmeta_bucket == path.bucket && dmeta_object == path.object
-//@ modifies dmeta_count, dmeta_bucket, dmeta_object, io_fails
+//@ props C02 C10 C09
+//@ requires           ms:     ms != nil && ms.fs != nil
+// a metadata file that is not there is not an error (deleting a key is idempotent)
+//@ ensures [C02]      err:    imp(ret0 != nil, errcode(ret0) == "" && io_fails > old(io_fails)) && imp(ret0 == nil, io_fails == old(io_fails))
+//@ ensures [C02,C10]  file:   fs_removes(ms.fs) == old(fs_removes(ms.fs)) + 1 && fs_last_remove(ms.fs) == filepath.Join(path.bucket, path.object) &&
+//@                              fs_removealls(ms.fs) == old(fs_removealls(ms.fs))
+//@ modifies fs_exists(ms.fs), io_fails, fs_removes(ms.fs), fs_last_remove(ms.fs)
 
 //@ func (*metaStore).deleteBucket
 //@ nobody
@@ -96,7 +97,7 @@ package s3afero
 //@ props C02 C09
 //@ requires          inv:    mdb(db)
 //@ ensures [C02]     nonempty: imp(old(fs_exists(db.bucketFs, name)) && !allstr(c, !fs_child(db.bucketFs, name, c)) && io_fails == old(io_fails),
-//@                             errcode(rerr) == gofakes3.ErrBucketNotEmpty && fs_removes == old(fs_removes))
+//@                             errcode(rerr) == gofakes3.ErrBucketNotEmpty && fs_removes(db.bucketFs) == old(fs_removes(db.bucketFs)))
 //@ ensures [C02]     gone:   imp(rerr == nil, !fs_exists(db.bucketFs, name) && allstr(c, !fs_child(db.bucketFs, name, c)))
 //@ ensures           lock:   db.lock == 0
 
@@ -172,23 +173,24 @@ package s3afero
 // C02: deleting is idempotent and removes exactly the object's file and its metadata
 //@ func (*MultiBucketBackend).deleteObjectLocked
 //@ props C02 C10 C09
-//@ requires          inv:    db != nil && db.bucketFs != nil && db.metaStore != nil
-//@ ensures [C02,C10] file:   fs_removes == old(fs_removes) + 1 && fs_last_remove == objp(bucketName, objectName) && fs_removealls == old(fs_removealls)
+//@ requires          inv:    db != nil && db.bucketFs != nil && db.metaStore != nil && db.metaStore.fs != nil && db.bucketFs != db.metaStore.fs
+//@ ensures [C02,C10] file:   fs_removes(db.bucketFs) == old(fs_removes(db.bucketFs)) + 1 && fs_last_remove(db.bucketFs) == objp(bucketName, objectName) && fs_removealls(db.bucketFs) == old(fs_removealls(db.bucketFs))
 //@ ensures [C02]     idem:   imp(io_fails == old(io_fails), ret0 == nil)
 //@ ensures [C02]     gone:   imp(ret0 == nil, !fs_exists(db.bucketFs, objp(bucketName, objectName)))
-//@ ensures [C02,C10] meta:   imp(ret0 == nil, dmeta_count == old(dmeta_count) + 1 && dmeta_bucket == bucketName)
+//@ ensures [C02,C10] meta:   imp(ret0 == nil, fs_removes(db.metaStore.fs) == old(fs_removes(db.metaStore.fs)) + 1 &&
+//@                             fs_last_remove(db.metaStore.fs) == filepath.Join(bucketName, metaobj(objectName)))
 //@ assume            unixsep: filepath.FromSlash(path.Join(bucketName, objectName)) == path.Join(bucketName, objectName)
 //@                           because the separator of the platform the checks run on is '/'
 //@ assume            joinsub: imp(objectName != "" && !strings.Contains(objectName, ".."), strings.HasPrefix(path.Join(bucketName, objectName), bucketName + "/"))
 //@                           because path.Join cleans the concatenation a + "/" + b, and cleaning only climbs out of a through a ".." segment of b
-//@ ensures [C10]     inside: strings.HasPrefix(fs_last_remove, bucketName + "/")
-//@ modifies fs_exists(db.bucketFs), io_fails, fs_removes, fs_last_remove, dmeta_count, dmeta_bucket, dmeta_object
+//@ ensures [C10]     inside: strings.HasPrefix(fs_last_remove(db.bucketFs), bucketName + "/")
+//@ modifies fs_exists(db.bucketFs), fs_exists(db.metaStore.fs), io_fails, fs_removes(db.bucketFs), fs_last_remove(db.bucketFs), fs_removes(db.metaStore.fs), fs_last_remove(db.metaStore.fs)
 
 //@ func (*MultiBucketBackend).DeleteObject
 //@ props C02 C10 C09
 //@ requires          inv:    mdb(db)
-//@ ensures [C02]     nobucket: imp(!old(fs_exists(db.bucketFs, bucketName)) && io_fails == old(io_fails), errcode(rerr) == gofakes3.ErrNoSuchBucket && fs_removes == old(fs_removes))
-//@ ensures [C02,C10] file:   imp(rerr == nil, fs_removes == old(fs_removes) + 1 && fs_last_remove == objp(bucketName, objectName) && !fs_exists(db.bucketFs, objp(bucketName, objectName)))
+//@ ensures [C02]     nobucket: imp(!old(fs_exists(db.bucketFs, bucketName)) && io_fails == old(io_fails), errcode(rerr) == gofakes3.ErrNoSuchBucket && fs_removes(db.bucketFs) == old(fs_removes(db.bucketFs)))
+//@ ensures [C02,C10] file:   imp(rerr == nil, fs_removes(db.bucketFs) == old(fs_removes(db.bucketFs)) + 1 && fs_last_remove(db.bucketFs) == objp(bucketName, objectName) && !fs_exists(db.bucketFs, objp(bucketName, objectName)))
 //@ ensures [C02]     idem:   imp(old(fs_exists(db.bucketFs, bucketName)) && io_fails == old(io_fails), rerr == nil)
 //@ ensures           lock:   db.lock == 0
 
@@ -259,8 +261,8 @@ package s3afero
 //@ requires          inv:    mdb(db)
 //@ loop 1 invariant  shape:  db.lock == -1 && -1 <= rangeindex && rangeindex < len(objects) &&
 //@                             len(result.Deleted) + len(result.Error) == rangeindex + 1
-//@ loop 1 backstep [C02,C10] each: fs_removes == old(fs_removes) + 1 && fs_last_remove == objp(bucketName, object)
-//@ ensures [C02]     nobucket: imp(!old(fs_exists(db.bucketFs, bucketName)) && io_fails == old(io_fails), errcode(rerr) == gofakes3.ErrNoSuchBucket && fs_removes == old(fs_removes))
+//@ loop 1 backstep [C02,C10] each: fs_removes(db.bucketFs) == old(fs_removes(db.bucketFs)) + 1 && fs_last_remove(db.bucketFs) == objp(bucketName, object)
+//@ ensures [C02]     nobucket: imp(!old(fs_exists(db.bucketFs, bucketName)) && io_fails == old(io_fails), errcode(rerr) == gofakes3.ErrNoSuchBucket && fs_removes(db.bucketFs) == old(fs_removes(db.bucketFs)))
 //@ ensures [C02]     answer: imp(rerr == nil, len(result.Deleted) + len(result.Error) == len(objects))
 //@ ensures           lock:   db.lock == 0
 
@@ -275,7 +277,7 @@ package s3afero
 // One bucket named db.name whose objects are the files of db.fs; every other bucket name answers
 // NoSuchBucket before the file system is touched.
 
-//@ pred sdb(db) = db != nil && db.fs != nil && db.metaStore != nil && db.metaStore.fs != nil && db.metaStore.modTimeCalc != nil && db.lock == 0
+//@ pred sdb(db) = db != nil && db.fs != nil && db.metaStore != nil && db.metaStore.fs != nil && db.fs != db.metaStore.fs && db.metaStore.modTimeCalc != nil && db.lock == 0
 //@ immutable SingleBucketBackend fs metaStore name init SingleBucket
 //@ pred sobjp(o) = filepath.FromSlash(o)
 
@@ -354,18 +356,19 @@ package s3afero
 
 //@ func (*SingleBucketBackend).deleteObjectLocked
 //@ props C02 C10 C09
-//@ requires          inv:    db != nil && db.fs != nil && db.metaStore != nil
-//@ ensures [C02,C10] file:   fs_removes == old(fs_removes) + 1 && fs_last_remove == sobjp(objectName) && fs_removealls == old(fs_removealls)
+//@ requires          inv:    db != nil && db.fs != nil && db.metaStore != nil && db.metaStore.fs != nil && db.fs != db.metaStore.fs
+//@ ensures [C02,C10] file:   fs_removes(db.fs) == old(fs_removes(db.fs)) + 1 && fs_last_remove(db.fs) == sobjp(objectName) && fs_removealls(db.fs) == old(fs_removealls(db.fs))
 //@ ensures [C02]     idem:   imp(io_fails == old(io_fails), ret0 == nil)
 //@ ensures [C02]     gone:   imp(ret0 == nil, !fs_exists(db.fs, sobjp(objectName)))
-//@ ensures [C02,C10] meta:   imp(ret0 == nil, dmeta_count == old(dmeta_count) + 1 && dmeta_bucket == bucketName)
-//@ modifies fs_exists(db.fs), io_fails, fs_removes, fs_last_remove, dmeta_count, dmeta_bucket, dmeta_object
+//@ ensures [C02,C10] meta:   imp(ret0 == nil, fs_removes(db.metaStore.fs) == old(fs_removes(db.metaStore.fs)) + 1 &&
+//@                             fs_last_remove(db.metaStore.fs) == filepath.Join(bucketName, metaobj(objectName)))
+//@ modifies fs_exists(db.fs), fs_exists(db.metaStore.fs), io_fails, fs_removes(db.fs), fs_last_remove(db.fs), fs_removes(db.metaStore.fs), fs_last_remove(db.metaStore.fs)
 
 //@ func (*SingleBucketBackend).DeleteObject
 //@ props C02 C10 C09
 //@ requires          inv:    sdb(db)
-//@ ensures [C02,C10] nobucket: imp(bucketName != db.name, errcode(rerr) == gofakes3.ErrNoSuchBucket && fs_removes == old(fs_removes))
-//@ ensures [C02,C10] file:   imp(rerr == nil, fs_removes == old(fs_removes) + 1 && fs_last_remove == sobjp(objectName) && !fs_exists(db.fs, sobjp(objectName)))
+//@ ensures [C02,C10] nobucket: imp(bucketName != db.name, errcode(rerr) == gofakes3.ErrNoSuchBucket && fs_removes(db.fs) == old(fs_removes(db.fs)))
+//@ ensures [C02,C10] file:   imp(rerr == nil, fs_removes(db.fs) == old(fs_removes(db.fs)) + 1 && fs_last_remove(db.fs) == sobjp(objectName) && !fs_exists(db.fs, sobjp(objectName)))
 //@ ensures [C02]     idem:   imp(bucketName == db.name && io_fails == old(io_fails), rerr == nil)
 //@ ensures           lock:   db.lock == 0
 
@@ -374,8 +377,8 @@ package s3afero
 //@ requires          inv:    sdb(db)
 //@ loop 1 invariant  shape:  db.lock == -1 && -1 <= rangeindex && rangeindex < len(objects) &&
 //@                             len(result.Deleted) + len(result.Error) == rangeindex + 1
-//@ loop 1 backstep [C02,C10] each: fs_removes == old(fs_removes) + 1 && fs_last_remove == sobjp(object)
-//@ ensures [C02,C10] nobucket: imp(bucketName != db.name, errcode(rerr) == gofakes3.ErrNoSuchBucket && fs_removes == old(fs_removes))
+//@ loop 1 backstep [C02,C10] each: fs_removes(db.fs) == old(fs_removes(db.fs)) + 1 && fs_last_remove(db.fs) == sobjp(object)
+//@ ensures [C02,C10] nobucket: imp(bucketName != db.name, errcode(rerr) == gofakes3.ErrNoSuchBucket && fs_removes(db.fs) == old(fs_removes(db.fs)))
 //@ ensures [C02]     answer: imp(rerr == nil, len(result.Deleted) + len(result.Error) == len(objects))
 //@ ensures           lock:   db.lock == 0
 
